@@ -9,7 +9,7 @@ from DHLLDV import DHLLDV_framework as fw, homogeneous as ho, heterogeneous as h
 from DHLLDV.DHLLDV_constants import gravity
 from Wilson import Wilson_Stratified as ws, Wilson_V50 as wv
 
-S = Search('C03', 'random envelope points: six regime models (head vs Erhg, pressure vs head); random Slurry objects: all curve keys x all '
+S = Search('C03', 'random envelope points: six regime models (head vs Erhg, pressure vs head); random Slurry objects (40 % of them edited -- rhom or Cv -- after a first read of their tables): all curve keys x all '
                   'indices, pointwise il/Erhg/im vs tables; Erhg_graded (Cvs and Cvt input) vs independent weighted-sum recomputation; '
                   'distinct = distinct input point / object')
 REL = 1e-9
